@@ -197,6 +197,8 @@ class Image:
         self.export = None
         self.comp = 0
         self.data_extents = []   # (start, end, what)
+        self.loc_lists = []      # (table, start, end) of every lookup table's block location list
+        self.struct_starts = set()
 
     def ok(self):
         return not self.errors
@@ -237,6 +239,10 @@ def _read_table(img, start, count, entsize, per_block, what, upper):
         img.data_extents.append((loc, loc + stored, what + "-meta"))
         remaining -= n
     img.data_extents.append((start, start + nblocks * 8, what + "-locs"))
+    img.loc_lists.append((what, start, start + nblocks * 8))
+    img.struct_starts.add(start)
+    if locs:
+        img.struct_starts.add(locs[0])
     return out
 
 
@@ -367,6 +373,7 @@ def _decode(img, want_content, max_nodes):
             img.invalid.append("xattr: kv_start not before id table")
         descs = _read_table(img, xt + 16, xcount, 16, 512, "xattrdesc", None)
         img.data_extents.append((xt, xt + 16, "xattr-hdr"))
+        img.struct_starts.update((xt, kv_start))
         kvms = MetaStream(img, kv_start, xt)
         for di, e in enumerate(descs):
             ref, cnt, size = struct.unpack("<QII", e)
@@ -704,6 +711,18 @@ def _decode(img, want_content, max_nodes):
                 n.content = file_content(n)
         for i in range(len(img.frags)):
             frag_data(i)
+    # ---- a lookup table's location list has exactly ceil(count / per_block) entries: it ends where the next structure starts
+    # (doc/format.adoc "Storing Lookup Tables"; the kernel refuses an id table whose list does not end at the next table)
+    starts = sorted(img.struct_starts | {bu})
+    for what, ls, le in img.loc_lists:
+        inside = [x for x in starts if ls < x < le]
+        nxt = [x for x in starts if x >= le]
+        if inside:
+            img.invalid.append("%s: location list %d..%d overlaps the structure starting at %d" % (what, ls, le, inside[0]))
+        elif not nxt:
+            img.invalid.append("%s: location list %d..%d ends after bytes_used %d" % (what, ls, le, bu))
+        elif nxt[0] != le:
+            img.invalid.append("%s: %d stray bytes between the location list (ends at %d) and the next structure at %d" % (what, nxt[0] - le, le, nxt[0]))
     # device block padding is checked by the caller (needs -B); record file size
     img.file_size = len(d)
     # ---- metadata tables: every block but the last of a table is full (8192 bytes of payload)
